@@ -1190,6 +1190,9 @@ func observe1(t *hutil.Target, src string) (s side) {
 				for i := range r.SyntaxPatterns {
 					r.SyntaxPatterns[i].Line = 0
 				}
+				for i := range r.CommentPatterns {
+					r.CommentPatterns[i].Line = 0
+				}
 				rules = append(rules, r)
 			}
 		}
@@ -1211,36 +1214,38 @@ func observe1(t *hutil.Target, src string) (s side) {
 }
 
 type Case struct {
-	Kind    string `json:"kind"` // helper | const
-	ID      int    `json:"id"`
-	SrcA    string `json:"src_a"` // with helpers / with the constant spelling
-	SrcB    string `json:"src_b"` // inlined / plain literal
-	A       side   `json:"a"`
-	B       side   `json:"b"`
-	IREqual bool   `json:"ir_equal"`
-	Model   string `json:"model,omitempty"` // Coq: the file as a list of groups (RG.Load.MacroEnv)
-	Groups  int    `json:"groups"`
-	Same    bool   `json:"same_name"`  // two groups define a helper of the same name
-	PkgFunc bool   `json:"pkg_func"`   // a later group calls a package-level function named like an earlier helper
-	Unhyg   bool   `json:"unhygienic"` // a parameter is named like a selected field of the body or like the matcher
-	Nested  bool   `json:"nested"`
-	PNamed  bool   `json:"param_named"`     // an identifier argument is spelled like a parameter of the called helper
-	Octal   bool   `json:"octal"`           // a helper body contains a legacy octal literal
-	Twice   bool   `json:"twice"`           // a helper is called more than once
-	Blank   bool   `json:"blank"`           // a helper has a blank parameter
-	BlankF  bool   `json:"blank_first"`     // ... followed by a named one
-	ConstB  bool   `json:"const_body"`      // a helper body refers to a named constant
-	ShadowB bool   `json:"shadow_body"`     // ... that is declared in the group and shadows a package-level one
-	PkgBef  bool   `json:"pkg_before"`      // a helper calls a package-level function whose name a later helper of the group carries
-	TwinRej bool   `json:"twin_rejected"`   // fixed catalogue: Go's reading of the group is itself not a loadable rule
-	Higher  bool   `json:"higher_order"`    // a helper takes another helper as an argument and calls it
-	HigherN bool   `json:"higher_named"`    // ... through a parameter spelled like a helper of the group
-	PkgArg  bool   `json:"pkg_arg"`         // a helper hands a package-level function to a higher-order helper; a later helper of the group carries its name
-	GConst  bool   `json:"group_consts"`    // const case: several groups declare equal-named constants with other values
-	Outside bool   `json:"outside_model"`   // uses Type.IdenticalTo / Filter, whose argument the Coq skeleton does not model
-	Fixed   string `json:"fixed,omitempty"` // a case of the fixed catalogue (twins.go)
-	Spell   string `json:"spelling,omitempty"`
-	Crash   bool   `json:"crash,omitempty"` // reported by the supervisor: the process died on this case
+	Kind     string `json:"kind"` // helper | const
+	ID       int    `json:"id"`
+	SrcA     string `json:"src_a"` // with helpers / with the constant spelling
+	SrcB     string `json:"src_b"` // inlined / plain literal
+	A        side   `json:"a"`
+	B        side   `json:"b"`
+	IREqual  bool   `json:"ir_equal"`
+	Model    string `json:"model,omitempty"`   // Coq: the file as a list of groups (RG.Load.MacroEnv)
+	ModelB   string `json:"model_b,omitempty"` // const cases: the literal twin as a list of groups
+	Groups   int    `json:"groups"`
+	Same     bool   `json:"same_name"`  // two groups define a helper of the same name
+	PkgFunc  bool   `json:"pkg_func"`   // a later group calls a package-level function named like an earlier helper
+	Unhyg    bool   `json:"unhygienic"` // a parameter is named like a selected field of the body or like the matcher
+	Nested   bool   `json:"nested"`
+	PNamed   bool   `json:"param_named"`               // an identifier argument is spelled like a parameter of the called helper
+	Octal    bool   `json:"octal"`                     // a helper body contains a legacy octal literal
+	Twice    bool   `json:"twice"`                     // a helper is called more than once
+	Blank    bool   `json:"blank"`                     // a helper has a blank parameter
+	BlankF   bool   `json:"blank_first"`               // ... followed by a named one
+	ConstB   bool   `json:"const_body"`                // a helper body refers to a named constant
+	ShadowB  bool   `json:"shadow_body"`               // ... that is declared in the group and shadows a package-level one
+	PkgBef   bool   `json:"pkg_before"`                // a helper calls a package-level function whose name a later helper of the group carries
+	TwinRej  bool   `json:"twin_rejected"`             // fixed catalogue: Go's reading of the group is itself not a loadable rule
+	Higher   bool   `json:"higher_order"`              // a helper takes another helper as an argument and calls it
+	HigherN  bool   `json:"higher_named"`              // ... through a parameter spelled like a helper of the group
+	SpellCat string `json:"spell_catalogue,omitempty"` // const cases of the fixed catalogue: position and form
+	PkgArg   bool   `json:"pkg_arg"`                   // a helper hands a package-level function to a higher-order helper; a later helper of the group carries its name
+	GConst   bool   `json:"group_consts"`              // const case: several groups declare equal-named constants with other values
+	Outside  bool   `json:"outside_model"`             // uses Type.IdenticalTo / Filter, whose argument the Coq skeleton does not model
+	Fixed    string `json:"fixed,omitempty"`           // a case of the fixed catalogue (twins.go)
+	Spell    string `json:"spelling,omitempty"`
+	Crash    bool   `json:"crash,omitempty"` // reported by the supervisor: the process died on this case
 }
 
 // Begin announces a case to the supervisor (hutil.Supervise): if the process dies while converting / loading it, the
@@ -1331,7 +1336,28 @@ func main() {
 		enc.Encode(c)
 		stdout.Flush()
 	}
-	// constant spellings outside helper bodies
+	// constant spellings outside helper bodies: the catalogue (every class of outermost node in every position), then random ones
+	plainSide := map[string]side{} // the literal twin of a position is the same file for every spelling
+	for _, sc := range spellCatalogue(*seed) {
+		id++
+		c := Case{Kind: "const", ID: id, Spell: sc.spell, SpellCat: sc.name, SrcA: sc.srcA, SrcB: sc.srcB}
+		if !announce(&c) {
+			continue
+		}
+		if sc.inWhere {
+			c.Model, c.ModelB = modelOf(c.SrcA), modelOf(c.SrcB)
+		}
+		c.A = observe(t, c.SrcA)
+		if b, ok := plainSide[c.SrcB]; ok {
+			c.B = b
+		} else {
+			c.B = observe(t, c.SrcB)
+			plainSide[c.SrcB] = c.B
+		}
+		c.IREqual = c.A.IR != "" && c.A.IR == c.B.IR
+		enc.Encode(c)
+		stdout.Flush()
+	}
 	for i := 0; i < *nc; i++ {
 		id++
 		c := Case{Kind: "const", ID: id}
